@@ -58,6 +58,8 @@ def check(ck):
         rer = [n for n in g.live_nodes() if n.kind == "raise" and n.ast.exc is None and any(sub is n.ast for st_ in h.ast.body for sub in ast.walk(st_))]
         ck.require(len(closes) == 1 and len(rer) == 1 and closes[0].id in d[rer[0].id], "C19.1", "%s: handler closes then re-raises" % q.fn(fs),
                    "self.close() dominates the re-raise", "the handler does not call self.close() on every path before re-raising", q.loc(fs, h))
+        from rules import common as _cmp19
+        _cmp19.check_propagates(ck, "C19.1", fs, g)
         if closes:
             guards = [g.nodes[i] for i in d[closes[0].id] if g.nodes[i].kind == "branch" and any(sub is g.nodes[i].test for st_ in h.ast.body for sub in ast.walk(st_))]
             ck.require(not guards, "C19.1", "%s: self.close() is unconditional" % q.fn(fs), "no guard",
